@@ -53,6 +53,9 @@ def is_effect(name):
     return bool(name and EFFECT_RE.search(name))
 
 
+SHAPE_ALLOW = {"eval::read_src # - # std::fs::read"}
+
+
 def builds_only_refusal(g):
     """helper g constructs EvalError::ForbiddenInSandbox and no other EvalError variant, and performs no effect call."""
     variants = set()
@@ -93,6 +96,12 @@ def run(ctx, res):
         elif x["status"] == "chain-guarded":
             res.ok("EFFECT-GUARD", key, "all call chains from eval::eval are guarded")
         elif key in allow:
+            if key in SHAPE_ALLOW:
+                okg, whyg = S.snippet_import_guard(P)
+                if not okg:
+                    res.bad("EFFECT-GUARD", key + " # allow-shape", "allowlisted effect `%s` relies on the conditional refusal in check_snippet, "
+                            "which no longer has its shape: %s" % (key, whyg), "%s:%d" % (t["span"]["file"], t["span"]["line"]))
+                    continue
             res.ok("EFFECT-GUARD", key, "allowlisted: " + allow[key][:60])
             res.note("allowlisted unguarded effect: %s -- %s" % (key, allow[key]))
         elif PURE_ACCESSORS.search(n):
@@ -127,7 +136,9 @@ def run(ctx, res):
                     if g is not None and g.path != p and builds_only_refusal(g):
                         builds = True
             rejoin = ft in tre
-            if eff_after:
+            if p == "eval::check_snippet" and S.snippet_import_guard(P)[0]:
+                res.ok("EFFECT-GUARD", key, "conditional refusal: " + S.snippet_import_guard(P)[1])
+            elif eff_after:
                 res.bad("EFFECT-GUARD", key + " # effect-on-true-edge",
                         "an effectful call (%s) is reachable on the sandboxed (true) edge of the enforce_sandbox test" % eff_after[0][1],
                         f.loc(f.blocks[sb]["term"]["span"]))
